@@ -795,7 +795,8 @@ def _main(r: random.Random, imports: list[str], calls: list[str]) -> dict:
 
 WORLD_KINDS = ["import_ok", "import_ok_diamond", "import_ok_lookup", "missing_import", "missing_import_nested", "cyclic_import_self",
                "cyclic_import_two", "cyclic_import_not_through_root", "cyclic_import_long", "routines_in_imported_file",
-               "routines_in_imported_ssbscript_file", "defect_in_imported_macro", "import_of_directory", "too_few_arguments_for_imported_macro"]
+               "routines_in_imported_ssbscript_file", "defect_in_imported_macro", "import_of_directory", "too_few_arguments_for_imported_macro",
+               "recursion_through_name_of_imported_macro"]
 
 
 def gen_world(r: random.Random, kind: str) -> dict:
@@ -867,6 +868,24 @@ def gen_world(r: random.Random, kind: str) -> dict:
         _ins(r, r.choice(blocks(main, macros=False))["ss"], call)
         files = {"main.exps": main, "lib.exps": lib}
         expect = True
+    elif kind == "recursion_through_name_of_imported_macro":
+        # the imported file defines a (harmless) macro `a`; the compiled file defines its own `a` inside a call cycle
+        # (a -> a, or a -> b -> a): recursive macros are rejected whatever else carries the same name
+        main = _main(r, ["./lib.exps"], [])
+        k = r.choice([1, 2, 2, 3])
+        names = [a] + [fresh("cyc") for _ in range(k - 1)]
+        for i, nm in enumerate(names):
+            call = {"t": "macrocall", "name": names[(i + 1) % k], "args": []}
+            body = [_plain(r), call]
+            if r.random() < 0.4:
+                body = [{"t": "if", "branches": [{"not": False, "headers": [{"h": "neg", "not": False, "kw": "debug"}], "body": [call]}], "else": None}, _plain(r)]
+            main["macros"].append({"name": nm, "params": [], "body": body})
+        r.shuffle(main["macros"])
+        if r.random() < 0.6:
+            _ins(r, r.choice(blocks(main, macros=False))["ss"], {"t": "macrocall", "name": r.choice(names), "args": []})
+        files = {"main.exps": main, "lib.exps": _lib(r, [a])}
+        expect = True
+        modelled = False     # (a macro name defined in two files is outside the world model)
     elif kind == "import_of_directory":
         files = {"main.exps": _main(r, [r.choice([".", "./", "./sub", ""])], []), "sub": {"dir": True}}
         expect = True
